@@ -12,7 +12,14 @@ Python equivalents of Engineering library functions
 """
 import functools
 
-from pycel.excelutil import EMPTY, ERROR_CODES, flatten, NUM_ERROR, VALUE_ERROR
+from pycel.excelutil import (
+    EMPTY,
+    ERROR_CODES,
+    flatten,
+    is_number,
+    NUM_ERROR,
+    VALUE_ERROR,
+)
 from pycel.lib.function_helpers import (
     excel_math_func,
 )
@@ -65,8 +72,9 @@ def _dec2base(value, places=None, base=16):
         value = 0
 
     try:
-        value = int(value)
-    except ValueError:
+        # int() alone would take '1_0' for ten
+        value = int(value) if is_number(value) else int('')
+    except (ValueError, OverflowError):
         return VALUE_ERROR
 
     mask = _SIZE_MASK[base]
@@ -80,11 +88,15 @@ def _dec2base(value, places=None, base=16):
     if places is None:
         places = 0
     else:
+        places = list(flatten(places))
+        if len(places) != 1 or isinstance(places[0], bool):
+            return VALUE_ERROR
+        places = places[0]
         if places in ERROR_CODES:
             return places
         try:
-            places = int(places)
-        except ValueError:
+            places = int(places) if is_number(places) else int('')
+        except (ValueError, OverflowError):
             return VALUE_ERROR
         if not (len(value) <= places <= 10):
             return NUM_ERROR
